@@ -265,6 +265,34 @@ Example C06_early_conflict_iff_ex :
   /\ early_conflict [(0, TSlice (TSig 0 8) 0 5); (0, TSig 1 2); (1, TSlice (TSig 0 8) 4 8)] = Some (0, 4).
 Proof. vm_compute. repeat split. Qed.
 
+(* For ALL targets (any nesting of slices, part-selects, Cat, arrays / choices of any widths, casts) whose signals have
+   one width each (table W): every bit the target may address for SOME selector value (may_drive, the relation used in
+   `conflict`) is set in its LHSMaskCollector mask. *)
+Theorem C06_mask_covers_may_drive : forall W t s b, sigs_ok W t -> may_drive t s b -> In (s, b) (mbits t).
+Proof. exact mask_covers_may_drive. Qed.
+Print Assumptions C06_mask_covers_may_drive.
+
+(* For ALL statement lists of one module whose targets give each signal one width: if two statements of DIFFERENT
+   domains may drive a common bit, Module._add_statement raises its early SyntaxError — the early check never misses an
+   intra-module domain conflict.  The CONVERSE IS FALSE (finding S2-early-conflict-part-overapprox, C06_early_conflict_
+   refuted above: s.word_select(o1, 2) in comb and s[4:8] in another domain share no bit, yet the error is raised,
+   because the mask of a part-select is its whole operand — see C06_early_conflict_iff_ex). *)
+Theorem C06_early_check_complete : forall W stmts,
+  (forall dm t, In (dm, t) stmts -> sigs_ok W t) ->
+  (exists s b d1 t1 d2 t2, d1 <> d2 /\ In (d1, t1) stmts /\ In (d2, t2) stmts /\ may_drive t1 s b /\ may_drive t2 s b) ->
+  early_conflict stmts <> None.
+Proof. exact early_check_complete. Qed.
+Print Assumptions C06_early_check_complete.
+Example C06_early_check_complete_ex :
+  (* hypotheses satisfiable: a part-select that really reaches bit 3 from comb, the slice s[3:5] from domain 1 *)
+  let stmts := [(0, TPart (TSlice (TSig 0 8) 0 4) 1 3 1); (1, TSlice (TSig 0 8) 3 5)] in
+  may_driveb (snd (nth 0 stmts (0, TSig 0 0))) 0 3 = true /\ may_driveb (snd (nth 1 stmts (0, TSig 0 0))) 0 3 = true
+  /\ early_conflict stmts = Some (0, 3)
+  (* and the converse fails on the S2 statements: no common drivable bit, error raised *)
+  /\ early_conflict s2_stmts = Some (0, 4)
+  /\ forallb (fun b => negb (may_driveb (TPart (TSig 0 8) 1 2 2) 0 b && may_driveb (TSlice (TSig 0 8) 4 8) 0 b)) (seq 0 8) = true.
+Proof. vm_compute. repeat split. Qed.
+
 (* marginal: a zero-width target creates a bit-less sole driver, which emit_drivers widens to the whole
    signal; with the signal declared an Input port this is a DriverConflict although no bit has two sources *)
 Theorem C06_zero_width_refuted :
